@@ -160,7 +160,8 @@ def run(ctx):
                     "changed": ru["end"].get("changed"), "took": ru["end"]["took"], "given": ru["end"]["given"]})
     ctx.cov["rule"] = ("run = one request type (document create / update / update granting access and a role / update adding, dropping "
                        "[thorough: replacing] an attachment / conflicting push that wins, that loses / tombstone of the winning, of the losing branch / "
-                       "delete; 13 rejection kinds; user create, update, delete; role create, delete, purge; session create, delete [thorough: one-time]) "
+                       "delete; 13 rejection kinds; user create, update, delete; role create, delete, purge; session create, delete [thorough: one-time]; "
+                       "resync regenerating a user's / a role's sequence; real CAS races: principal update vs. update, resync vs. update) "
                        "x one storage operation of its recorded operation list x one fault kind that applies to it (Err, CAS mismatch, timeout not "
                        "applied, timeout applied) [thorough: x a second fault at every later operation of the faulted run]; "
                        "non-trivial = the armed fault was actually hit by the real request")
